@@ -303,7 +303,10 @@ func dumpCdrFile(ueid string, records []*cdrType.CHFRecord) error {
 		}
 	}
 
-	cdrfile.Encoding("/tmp/" + ueid + ".cdr")
+	if err := cdrfile.Encoding("/tmp/" + ueid + ".cdr"); err != nil {
+		logger.ChargingdataPostLog.Errorf("CDR file of [%s] cannot be written: %v", ueid, err)
+		return err
+	}
 
 	return nil
 }
